@@ -29,23 +29,76 @@ THEOREMS = [
     "Verif.C01.mask_all_true",
     "Verif.C01.matchFull_value",
     "Verif.C01.F1_witness",
+    # deepening round D
+    "Verif.C01.wf_slice",
+    "Verif.C01.wf_getitem",
+    "Verif.C01.wf_samples_in_bounds",
+    "Verif.C01.tags_init_wf",
+    "Verif.C01.getitem_none_all",
+    "Verif.C01.getitem_opt_spec",
+    "Verif.C01.getitem_compose_opt",
+    "Verif.C01.getitem_none_needs_sorted",
+    "Verif.C01.window_table",
+    "Verif.C01.getitemFull_obj",
+    "Verif.C01.getitemFull_step",
+    "Verif.C01.getitemFull_scalar",
+    "Verif.C01.getitemFull_window_spec",
+    "Verif.C01.applyMask_spec",
+    "Verif.C01.src_applyMask_table",
+    "Verif.C01.matchBody_iff",
+    "Verif.C01.captures_unique",
+    "Verif.C01.matchFull_iff",
+    "Verif.C01.parseTime_spec",
+    "Verif.C01.digitsToNat_eq",
+    "Verif.C01.tokNs_floor",
+    "Verif.C01.wf_samples_sorted",
+    "Verif.C01.applyMask_wf",
+    "Verif.C01.getitemFull_wf",
+    "Verif.C01.mask_then_window",
+    "Verif.C01.window_then_mask",
+    "Verif.C01.timeString_drop_newline",
+    "Verif.C01.parseTime_iff",
+    "Verif.C01.bodyMatch_iff_rx",
+    "Verif.C01.timeString_iff_rx",
+    "Verif.C01.matchFull_accepts_iff_rx",
+    "Verif.C01.alignedStart_least",
+    "Verif.C01.cont_bounds_tight",
+    "Verif.C01.ts_bounds_tight",
+    "Verif.C01.getitem_getitem_spec",
+    "Verif.C01.chain_spec",
+    "Verif.C01.chain_perm",
+    "Verif.C01.chain_idem",
+    "Verif.C01.window_wf",
+    "Verif.C01.timeString_functional",
+    "Verif.C01.cont_slice_no_overflow",
+    "Verif.C01.slice_shift",
+    "Verif.C01.getitem_shift",
+    "Verif.C01.shift_timestamps",
 ]
 RULE = (
     "corpus (F1, F6 inputs) + exhaustive small scope (n<=5 samples, dt in {1,2,3,5}, two starts, every window "
-    "with bounds in [start-2dt-1, stop+2dt+1] or None, continuous/time-series/time-tags; quick: n<=4, dt in {1,3}) "
+    "with bounds in [start-2dt-1, stop+2dt+1] or None, continuous/time-series/time-tags; quick: n<=4, dt in {1,3}; the whole "
+    "Slice.__getitem__: every pair of bound kinds (None, integers, valid/invalid time strings, non-numbers) as slice, slice with "
+    "step, object, Marker, calibration item, channel slice, on empty and non-empty sources of the three kinds, scalars, all masks "
+    "incl. wrong lengths, mask->window and window->mask; every string over the alphabet '1. \\nmsn-' up to length 4, thorough 5) "
     "+ seeded random channels (n<=3000, dt<=1e9, start<=2^62) with 1-3 nested windows drawn around the boundary "
-    "timestamps, bounds given as ints, None, time strings, slice objects, Marker and ForceCalibrationItem; boolean "
-    "masks; time strings from the grammar and a malformed stream. Non-trivial: the (last) window keeps a non-empty "
+    "timestamps, bounds given as ints, None, time strings, slice objects, Marker, ForceCalibrationItem and channel slices; random "
+    "chains of 1-3 items (windows, masks, rarely a step / scalar / invalid string / non-number); boolean "
+    "masks; time strings from the grammar and a malformed stream. Observables: the returned samples and, for every non-empty "
+    "result, len/start/stop. Non-trivial: the (last) window keeps a non-empty "
     "proper subset of the channel, or one of its bounds lies within one period of the first/last sample, or it lies "
-    "wholly before/after the data; for strings: accepted by the grammar with at least one group, or rejected."
+    "wholly before/after the data; for strings: accepted by the grammar with at least one group, or rejected; for item chains: "
+    "a non-empty source or a non-mask item."
 )
 TRUSTED = [
     "time strings: ASCII only (Python's \\d/\\s also accept non-ASCII digits/spaces; outside the model)",
     "timestamps below 2^62 (np.int64 overflow is outside the model)",
+    "Python's re module implements the textbook semantics of Timeindex's pattern (the Lean side proves the model's matcher equal to that semantics)",
 ]
 ASSUMPTIONS = [
     "Continuous channels have dt >= 1 (hypothesis of cont_slice_samples; the constructor does not check it)",
-    "time-series timestamps are non-decreasing in generated cases",
+    "time-series timestamps are non-decreasing in generated cases that use None or time strings (necessary: getitem_none_needs_sorted); unsorted series are sliced with explicit integers only",
+    "the exception class raised for an invalid argument is compared with the model but is not a clause of the property text",
 ]
 
 UNITS = [("d", 86400 * 10**9), ("h", 3600 * 10**9), ("m", 60 * 10**9), ("s", 10**9), ("ms", 10**6), ("us", 10**3), ("ns", 1)]
@@ -72,6 +125,9 @@ def build(case):
     channel, _ = _lk()
     k = case["kind"]
     if k == "cont":
+        if case.get("np"):
+            # as read from an HDF5 file: the start attribute is a NumPy scalar, the period a Python int
+            return channel.Slice(channel.Continuous(np.arange(case["n"]), np.int64(case["start"]), case["dt"]))
         return channel.Slice(channel.Continuous(np.arange(case["n"]), case["start"], case["dt"]))
     ts = np.array(case["ts"], dtype=np.int64)
     if k == "ts":
@@ -138,8 +194,59 @@ def make_item(a, b, via):
     if via == "calib":
         from lumicks.pylake.force_calibration.calibration_item import ForceCalibrationItem
 
-        return ForceCalibrationItem({"Start time (ns)": a, "Stop time (ns)": b})
+        # a missing key is how a calibration item without a start/stop time looks (`.get` gives None)
+        return ForceCalibrationItem({k: v for k, v in (("Start time (ns)", a), ("Stop time (ns)", b)) if v is not None})
+    if via == "tagslice":
+        # another channel slice used as the window (`force[photon_time_tags]`): its start/stop are the bounds
+        channel, _ = _lk()
+        if isinstance(a, int) and isinstance(b, int):
+            return channel.Slice(channel.TimeTags(np.array([], dtype=np.int64), a, b))
+        return Obj(a, b)
     raise ValueError(via)
+
+
+OTHERS = {"list": [1], "tuple": (1, 2), "bytes": b"1s", "dict": {"start": 1}}
+SCALARS = {"int": 5, "list": [True, False], "str": "1s", "float": 2.5, "none": None}
+
+
+def dec_arg(b):
+    """item encoding of one bound: None | int | {"s": str} | {"other": name}"""
+    if isinstance(b, dict):
+        return b["s"] if "s" in b else OTHERS[b["other"]]
+    return b
+
+
+def make_full_item(it):
+    """the argument of Slice.__getitem__ for an `item` case"""
+    t = it["t"]
+    if t == "M":
+        return np.array(it["mask"], dtype=bool)
+    if t == "X":
+        return SCALARS[it["what"]]
+    a, b = dec_arg(it["a"]), dec_arg(it["b"])
+    if t == "S":
+        return slice(a, b, it.get("step"))
+    return make_item(a, b, it.get("via", "obj"))
+
+
+def enc_arg_model(b):
+    if b is None:
+        return "N"
+    if isinstance(b, dict):
+        return "s" + enc_list([ord(c) for c in b["s"]]) if "s" in b else "?"
+    return str(int(b))
+
+
+def enc_item_model(it):
+    t = it["t"]
+    if t == "M":
+        return "M " + enc_list(it["mask"], enc_bool)
+    if t == "X":
+        return "X"
+    ab = f"{enc_arg_model(it['a'])} {enc_arg_model(it['b'])}"
+    if t == "S":
+        return f"S {ab} {enc_bool(it.get('step') is not None)}"
+    return "O " + ab
 
 
 def dec_bound(b):
@@ -170,16 +277,47 @@ def impl(case):
     try:
         if k == "get":
             s = build(case)
+            npw = (lambda v: np.int64(v) if isinstance(v, int) else v) if case.get("np") else (lambda v: v)
             for (a, b), via in zip(case["windows"], case["via"]):
-                s = s[make_item(dec_bound(a), dec_bound(b), via)]
+                s = s[make_item(npw(dec_bound(a)), npw(dec_bound(b)), via)]
             ts = np.asarray(s.timestamps)
             data = np.asarray(s.data)
             if len(ts) != len(data):
                 return [f"length-mismatch {len(ts)} {len(data)}"]
             kind = case["kind"]
-            if kind == "tags":
-                return ["tags " + enc_list(data)]
-            return [f"{kind} " + show_samples(ts, data)]
+            # second observable: Slice.start / Slice.stop of a non-empty result (what a nested relative time string
+            # counts from, and what `None` stands for at the next level)
+            bounds = "0" if len(s) == 0 else f"{len(s)} {int(s.start)} {int(s.stop)}"
+            first = "tags " + enc_list(data) if kind == "tags" else f"{kind} " + show_samples(ts, data)
+            if "shift" not in case:
+                return [first, bounds]
+            # translation invariance on the real code (theorem getitem_shift): the same recording `shift` ns later,
+            # absolute bounds moved along, None and relative time strings unchanged -> same samples, `shift` ns later
+            d = case["shift"]
+            moved = dict(case)
+            if kind == "cont":
+                moved["start"] = case["start"] + d
+            else:
+                moved["ts"] = [t + d for t in case["ts"]]
+            s2 = build(moved)
+            for (a, b), via in zip(case["windows"], case["via"]):
+                a2, b2 = (v + d if isinstance(v, int) else dec_bound(v) for v in (a, b))
+                s2 = s2[make_item(npw(a2), npw(b2), via)]
+            ts2 = np.asarray(s2.timestamps) - d
+            data2 = np.asarray(s2.data)
+            if len(ts2) != len(data2):
+                return [first, bounds, f"length-mismatch {len(ts2)} {len(data2)}"]
+            back = "tags " + enc_list(data2 - d) if kind == "tags" else f"{kind} " + show_samples(ts2, data2)
+            return [first, bounds, back]
+        if k == "item":
+            s = build(case)
+            for it in case["items"]:
+                s = s[make_full_item(it)]
+            ts = np.asarray(s.timestamps)
+            data = np.asarray(s.data)
+            if len(ts) != len(data):
+                return [f"length-mismatch {len(ts)} {len(data)}"]
+            return [show_samples(ts, data)]
         if k == "mask":
             ts = np.array(case["ts"], dtype=np.int64)
             if case["kind"] == "cont":
@@ -204,7 +342,12 @@ def ops(case):
     k = case["op"]
     if k == "get":
         w = " ".join(f"{enc_bound_model(a)} {enc_bound_model(b)}" for a, b in case["windows"])
-        return [f"c01.get {src_tokens(case)} {w}"]
+        lines = [f"c01.get {src_tokens(case)} {w}", f"c01.bounds {src_tokens(case)} {w}"]
+        if "shift" in case:
+            lines.append(lines[0])  # the shifted run, moved back, must give the very same answer
+        return lines
+    if k == "item":
+        return [f"c01.item {src_tokens(case)} " + " ".join(enc_item_model(it) for it in case["items"])]
     if k == "mask":
         return [f"c01.mask {enc_list(case['ts'])} {enc_list(case['mask'], enc_bool)}"]
     if k == "parse":
@@ -213,7 +356,7 @@ def ops(case):
 
 
 def agree(case, i, ia, ma):
-    if case["op"] == "get":
+    if case["op"] == "get" and i in (0, 2):
         # the model prints its full source (start/dt/bounds); the property determines the samples only
         toks = ma.split(" ")
         if toks[0] == "cont":
@@ -259,6 +402,53 @@ def oracle(case, ia):
             exp = f"{case['kind']} " + show_samples([t for t, _ in cur], [v for _, v in cur])
         if ans != exp:
             return f"window-membership: implementation returned {ans[:300]} but the samples with start <= t < stop are {exp[:300]}"
+        if len(ia) > 2 and ia[2] != ia[0]:
+            return f"translation: the same recording {case['shift']} ns later gives {ia[2][:200]} (moved back) instead of {ia[0][:200]}"
+        if len(ia) > 1 and ia[1] != "0" and cur and not case.get("unsorted"):
+            # a non-empty result must lie inside what the result itself reports as its begin and end (these are what
+            # `None` and relative time strings mean at the next level)
+            try:
+                n_out, st, sp = (int(x) for x in ia[1].split(" "))
+            except ValueError:
+                return f"result-bounds: cannot read len/start/stop of the result: {ia[1][:100]}"
+            kept = [t for t, _ in cur]
+            if n_out != len(kept) or not (st <= min(kept) and max(kept) < sp):
+                return f"result-bounds: result reports len/start/stop {ia[1]} but holds the timestamps {kept[:20]}"
+        return None
+    if k == "item":
+        if ans.endswith("Error") or ans.startswith("Error:") or ans.startswith("length-mismatch"):
+            return None  # the property text does not say which arguments are refused; left to the model comparison
+        tsall = timestamps_of(case)
+        cur = list(zip(tsall, tsall if case["kind"] == "tags" else range(len(tsall))))
+        for level, it in enumerate(case["items"]):
+            if it["t"] == "M":
+                if len(it["mask"]) != len(cur):
+                    return f"mask-length: expected IndexError, got {ans[:100]}"
+                cur = [x for x, f in zip(cur, it["mask"]) if f]
+                continue
+            if it["t"] == "X":
+                return f"scalar index accepted: {ans[:100]}"
+            if not cur:
+                continue  # an empty slice returns itself
+            lo, hi = it["a"], it["b"]
+            if any(isinstance(v, dict) for v in (lo, hi)):
+                if level > 0 or case.get("unsorted") or any("s" not in v for v in (lo, hi) if isinstance(v, dict)):
+                    return None
+                begin = cur[0][0]
+                end = begin + len(cur) * case["dt"] if case["kind"] == "cont" else cur[-1][0] + 1
+                res = []
+                for v in (lo, hi):
+                    if isinstance(v, dict):
+                        if not grammar_ok(v["s"]):
+                            return f"time-string: invalid string '{v['s']}' accepted as a bound"
+                        n = str_total_ns(v["s"])
+                        v = begin + n if n >= 0 else end + n
+                    res.append(v)
+                lo, hi = res
+            cur = [(t, v) for (t, v) in cur if (lo is None or lo <= t) and (hi is None or t < hi)]
+        exp = show_samples([t for t, _ in cur], [v for _, v in cur])
+        if ans != exp:
+            return f"getitem: implementation returned {ans[:300]} but the selected samples are {exp[:300]}"
         return None
     if k == "mask":
         ts, m = case["ts"], case["mask"]
@@ -297,6 +487,8 @@ def nontrivial(case, ia):
         return False
     if k == "mask":
         return any(case["mask"]) and not all(case["mask"])
+    if k == "item":
+        return len(timestamps_of(case)) > 0 or any(it["t"] != "M" for it in case["items"])
     if k == "parse":
         return len(case["s"].strip()) > 1
     return False
@@ -344,6 +536,12 @@ def shrink(case):
             c = dict(case)
             c["via"] = ["slice"] * len(case["via"])
             yield c
+    elif k == "item":
+        if len(case["items"]) > 1:
+            for i in range(len(case["items"])):
+                c = dict(case)
+                c["items"] = case["items"][:i] + case["items"][i + 1 :]
+                yield c
     elif k == "parse":
         s = case["s"]
         for i in range(len(s)):
@@ -475,6 +673,41 @@ def cases(tier, rng):
                 if quick and cnt % 3:
                     continue
                 yield dict(base, stream="small-scope", op="get", windows=[[a, b], [c, d]], via=["slice", "slice"])
+    # the whole Slice.__getitem__: every combination of bound kinds (None, integer, valid / invalid time string,
+    # an object that is neither), with and without a step, as a slice and as an object with start/stop, scalar
+    # indices and masks, on empty and non-empty sources of the three kinds
+    srcs = [
+        {"kind": "cont", "start": 7, "dt": 3, "n": 0}, {"kind": "cont", "start": 7, "dt": 3, "n": 3},
+        {"kind": "ts", "ts": []}, {"kind": "ts", "ts": [3, 5, 5, 9]},
+        {"kind": "tags", "ts": []}, {"kind": "tags", "ts": [1, 2, 4]},
+    ]
+    args = [None, 5, 9, {"s": "1ns"}, {"s": "-2ns"}, {"s": "1x"}, {"s": "1ns "}, {"other": "list"}]
+    if not quick:
+        args += [0, {"s": ""}, {"s": " 1d"}, {"other": "bytes"}, {"other": "tuple"}]
+    for base in srcs:
+        n = base["n"] if base["kind"] == "cont" else len(base["ts"])
+        for a, b in itertools.product(args, args):
+            yield dict(base, stream="small-scope", op="item", items=[{"t": "S", "a": a, "b": b}])
+            yield dict(base, stream="small-scope", op="item", items=[{"t": "O", "a": a, "b": b, "via": "obj"}])
+            if a is None or b is None or isinstance(a, dict) or isinstance(b, dict):
+                yield dict(base, stream="small-scope", op="item", items=[{"t": "S", "a": a, "b": b, "step": 1}])
+        for via in ("marker", "calib", "tagslice"):
+            for a, b in itertools.product(args[:5], args[:5]):
+                yield dict(base, stream="small-scope", op="item", items=[{"t": "O", "a": a, "b": b, "via": via}])
+        for what in SCALARS:
+            yield dict(base, stream="small-scope", op="item", items=[{"t": "X", "what": what}])
+        for ln in sorted({0, 1, n, n + 1}):
+            for m in itertools.product([False, True], repeat=ln):
+                yield dict(base, stream="small-scope", op="item", items=[{"t": "M", "mask": list(m)}])
+                if ln == n and base["kind"] != "tags":
+                    # derive -> derive: a mask, then a window on the masked slice (and the other way round)
+                    for a, b in ((None, None), (5, None), (None, 9), (4, 9), (9, 4)):
+                        yield dict(base, stream="small-scope", op="item", items=[{"t": "M", "mask": list(m)}, {"t": "S", "a": a, "b": b}])
+        if base["kind"] != "tags" and n:
+            for a, b in ((None, None), (5, None), (None, 9), (4, 12), (9, 4), (4, 5)):
+                k = sum(1 for t in timestamps_of(base) if (a is None or a <= t) and (b is None or t < b))
+                for m in itertools.product([False, True], repeat=k):
+                    yield dict(base, stream="small-scope", op="item", items=[{"t": "S", "a": a, "b": b}, {"t": "M", "mask": list(m)}])
     # masks: all masks on 4 samples, plus length mismatches
     for m in itertools.product([False, True], repeat=4):
         yield {"stream": "small-scope", "op": "mask", "kind": "ts", "ts": [2, 4, 4, 9], "mask": list(m)}
@@ -488,6 +721,13 @@ def cases(tier, rng):
         yield {"stream": "small-scope", "op": "parse", "s": f"{v // 1000}.{v % 1000:03d}s", "wellformed": True}
     for v in range(0, 1000, 7 if quick else 1):
         yield {"stream": "small-scope", "op": "parse", "s": f"{v // 10}.{v % 10}s", "wellformed": True}
+
+    # every string over a small alphabet of the grammar up to length 4 (5 on thorough): digits, dot, blank, newline,
+    # sign and the letters of m / s / ms / ns -- the matcher against the real regular expression, exhaustively
+    alphabet = "1. \nmsn-"
+    for ln in range(1, 5 if quick else 6):
+        for tup in itertools.product(alphabet, repeat=ln):
+            yield {"stream": "small-scope-strings", "op": "parse", "s": "".join(tup), "wellformed": False}
 
     # ---- random
     N = 1500 if quick else 40000
@@ -541,8 +781,75 @@ def cases(tier, rng):
                     w.append(sub.randint(min(ts) - 3 * dt, max(ts) + 3 * dt))
             windows.append(w)
             has_none_or_str = any(x is None or isinstance(x, dict) for x in w)
-            via.append(sub.choice(["slice", "slice", "obj", "marker", "calib"]))
+            via.append(sub.choice(["slice", "slice", "obj", "marker", "calib", "tagslice"]))
         case.update({"stream": "random", "op": "get", "windows": windows, "via": via, "subseed": i})
+        if kind == "cont" and sub.chance(0.25):
+            case["np"] = True
+        if sub.chance(0.3):
+            lowest = min(ts)
+            case["shift"] = sub.choice([1, 7, 10**9, sub.randint(0, 2**40), -sub.randint(0, lowest)])
+        yield case
+    # random chains of 1-3 items through the whole Slice.__getitem__ (windows with every kind of bound, masks,
+    # rarely a step / scalar / non-number bound / invalid string)
+    NI = 400 if quick else 10000
+    r = rng.fork("c01-items")
+    for i in range(NI):
+        sub = r.fork(i)
+        kind = sub.choice(["cont", "ts", "tags"])
+        n = sub.randint(0, 12) if sub.chance(0.9) else 0
+        if kind == "cont":
+            dt = sub.choice([1, 3, 10, 1000])
+            start = sub.choice([0, 1000, sub.randint(0, 2**40)])
+            ts = [start + j * dt for j in range(n)]
+            case = {"kind": "cont", "start": start, "dt": dt, "n": n}
+        else:
+            dt = sub.choice([1, 5])
+            t = sub.choice([0, 10**9])
+            ts = []
+            for j in range(n):
+                t += sub.choice([0, 1, dt, sub.randint(1, 5 * dt)])
+                ts.append(t)
+            case = {"kind": kind, "ts": ts}
+        cur = list(ts)
+        items = []
+        for _ in range(sub.randint(1, 3)):
+            c = sub.randint(0, 19)
+            if c <= 3 and kind != "tags" or c == 0:
+                ln = len(cur) if sub.chance(0.9) else sub.randint(0, len(cur) + 2)
+                m = [sub.chance(0.6) for _ in range(ln)]
+                items.append({"t": "M", "mask": m})
+                if ln != len(cur) or kind == "tags":
+                    break
+                cur = [t for t, f in zip(cur, m) if f]
+            elif c == 4:
+                items.append({"t": "X", "what": sub.choice(sorted(SCALARS))})
+                break
+            else:
+                w = []
+                for _ in range(2):
+                    q = sub.randint(0, 11)
+                    if q == 0:
+                        w.append(None)
+                    elif q == 1 and cur:
+                        w.append({"s": gen_timestring_for(sub, cur, dt)})
+                    elif q == 2:
+                        w.append({"s": sub.choice(MALFORMED)})
+                    elif q == 3:
+                        w.append({"other": sub.choice(sorted(OTHERS))})
+                    elif cur:
+                        w.append(sub.choice(boundary_values(cur, dt, sub)))
+                    else:
+                        w.append(sub.randint(0, 50))
+                it = {"t": sub.choice(["S", "S", "O"]), "a": w[0], "b": w[1]}
+                if it["t"] == "O":
+                    it["via"] = sub.choice(["obj", "marker", "calib", "tagslice"])
+                elif sub.chance(0.05):
+                    it["step"] = sub.choice([1, 2, -1])
+                items.append(it)
+                if any(isinstance(v, dict) for v in w) or "step" in it:
+                    break  # the harness does not track the intermediate begin/end; the model does (one level)
+                cur = [t for t in cur if (w[0] is None or w[0] <= t) and (w[1] is None or t < w[1])]
+        case.update({"stream": "random", "op": "item", "items": items, "subseed": i})
         yield case
     M = 600 if quick else 20000
     r = rng.fork("c01-strings")
@@ -614,5 +921,76 @@ def extra_coverage(results):
             n_out = 0 if a.endswith("[]") else a.count(",") + 1
             n_in = c["n"] if c["kind"] == "cont" else len(c["ts"])
             out_sizes["empty" if n_out == 0 else ("all" if n_out == n_in else "proper")] += 1
-    return {"case_kinds": kinds, "error_kinds": errs, "result_sizes": out_sizes, "exhaustive": False,
+    positions = {}
+    for r in results:
+        c = r["case"]
+        if c["op"] != "get" or len(c["windows"]) != 1 or c.get("unsorted"):
+            continue
+        ts = timestamps_of(c)
+        a, b = c["windows"][0]
+        if not ts:
+            pos = "empty-source"
+        elif not (isinstance(a, int) or a is None) or not (isinstance(b, int) or b is None):
+            pos = "time-string"
+        else:
+            lo = ts[0] if a is None else a
+            hi = ts[-1] + 1 if b is None else b
+            if lo > hi:
+                pos = "inverted"
+            elif lo == hi:
+                pos = "empty-window"
+            elif hi <= ts[0]:
+                pos = "before"
+            elif lo > ts[-1]:
+                pos = "after"
+            elif lo <= ts[0] and hi > ts[-1]:
+                pos = "covering"
+            elif lo <= ts[0]:
+                pos = "overlap-left"
+            elif hi > ts[-1]:
+                pos = "overlap-right"
+            else:
+                pos = "inside"
+            if c["kind"] == "cont" and isinstance(a, int) and isinstance(b, int):
+                dt = c["dt"]
+                pos += "/" + ("on" if (a - c["start"]) % dt == 0 else "off") + "-" + ("on" if (b - c["start"]) % dt == 0 else "off") + "-grid"
+            if None in (a, b):
+                pos += "/None"
+        key = f"{c['kind']}/{pos}"
+        positions[key] = positions.get(key, 0) + 1
+    branches = {}
+    for r in results:
+        c = r["case"]
+        if c["op"] != "item":
+            continue
+        a = r["impl"][0]
+        outcome = a if (a.endswith("Error") or a.startswith("Error:")) else ("ok-empty" if a == "[]" else "ok")
+        n_in = c["n"] if c["kind"] == "cont" else len(c["ts"])
+        last = c["items"][-1]
+        if last["t"] in ("S", "O"):
+            def cls(v):
+                return "None" if v is None else ("int" if isinstance(v, int) else ("str" if "s" in v else "other"))
+            shape = last["t"] + ("+step" if last.get("step") is not None else "") + f"[{cls(last['a'])}:{cls(last['b'])}]"
+        else:
+            shape = last["t"]
+        for key in (f"{shape}/{outcome}", f"{c['kind']}{'(empty)' if n_in == 0 else ''}/depth{len(c['items'])}/{last['t']}/{outcome}"):
+            branches[key] = branches.get(key, 0) + 1
+    parse_branches = {}
+    for r in results:
+        c = r["case"]
+        if c["op"] != "parse":
+            continue
+        a = r["impl"][0]
+        st = c["s"]
+        if a == "RuntimeError":
+            key = "rejected"
+        else:
+            import re
+
+            groups = len(re.findall(r"[0-9.]+[ \t\n\r\x0b\x0c\x1c-\x1f]*[a-z]+", st))
+            key = f"accepted/{groups}-groups" + ("/signed" if st.startswith("-") else "") + ("/decimal" if "." in st else "") + (
+                "/trailing-newline" if st.endswith("\n") else "")
+        parse_branches[key] = parse_branches.get(key, 0) + 1
+    return {"case_kinds": kinds, "error_kinds": errs, "result_sizes": out_sizes, "getitem_branches": branches,
+            "parse_branches": parse_branches, "window_positions": positions, "exhaustive": False,
             "exhaustive_note": "the small-scope stream enumerates its finite space completely; the random streams do not"}
